@@ -79,7 +79,7 @@ Lemma reg_fields : forall s a,
   run_timers (do_reg bug s a) = run_timers s /\ run_laters (do_reg bug s a) = run_laters s /\
   now (do_reg bug s a) = now s /\ iter (do_reg bug s a) = iter s /\ log (do_reg bug s a) = log s.
 Proof.
-  intros s a. destruct a as [d fl cb|fl cb|k x fl cb|id|]; cbn [do_reg]; try (repeat split; reflexivity).
+  intros s a. destruct a as [d fl cb|fl cb|k x fl cb|id| |]; cbn [do_reg]; try (repeat split; reflexivity).
   destruct k; repeat split; reflexivity.
 Qed.
 
@@ -94,7 +94,7 @@ Qed.
 
 Lemma Inv_reg : forall s a, Inv s -> Inv (do_reg bug s a).
 Proof.
-  intros s a H. destruct a as [d fl cb|fl cb|k x fl cb|id|]; cbn [do_reg]; try assumption.
+  intros s a H. destruct a as [d fl cb|fl cb|k x fl cb|id| |]; cbn [do_reg]; try assumption.
   - inv_split H. constructor; try assumption.
     cbn [timers set_next set_timers]. apply timer_insert_forall; [exact Htk|reflexivity].
   - inv_split H. constructor; try assumption.
@@ -105,6 +105,7 @@ Proof.
       unfold others in *; cbn [laters run_laters ios sigs procs set_next set_ios set_sigs set_procs];
       rewrite !Forall_app_iff in *; destruct Hot as [Hla [Hrl [Hio [Hsi Hpr]]]];
       repeat split; try assumption; apply insert_watch_forall; try assumption; cbn; discriminate.
+  - inv_split H. constructor; assumption.
 Qed.
 
 Lemma Inv_regs : forall l s, Inv s -> Inv (do_regs bug s l).
@@ -159,9 +160,9 @@ Qed.
 
 Lemma Inv_action : forall s a, Inv s -> Inv (do_action bug uenv s a).
 Proof.
-  intros s a H. destruct a as [d fl cb|fl cb|k x fl cb|id|];
+  intros s a H. destruct a as [d fl cb|fl cb|k x fl cb|id| |];
     try (change (Inv (do_reg bug s (ATimer d fl cb))) || change (Inv (do_reg bug s (ALater fl cb))) ||
-         change (Inv (do_reg bug s (AWatch k x fl cb))) || change (Inv (do_reg bug s ANop)); apply Inv_reg; exact H).
+         change (Inv (do_reg bug s (AWatch k x fl cb))) || change (Inv (do_reg bug s ANop)) || change (Inv (do_reg bug s ADrop)); apply Inv_reg; exact H).
   apply Inv_cancel. exact H.
 Qed.
 
@@ -184,7 +185,7 @@ Qed.
 
 Lemma action_now : forall s a, now (do_action bug uenv s a) = now s /\ iter (do_action bug uenv s a) = iter s.
 Proof.
-  intros s a. destruct a as [d fl cb|fl cb|k x fl cb|id|]; cbn [do_action]; try (split; reflexivity).
+  intros s a. destruct a as [d fl cb|fl cb|k x fl cb|id| |]; cbn [do_action]; try (split; reflexivity).
   - destruct (reg_fields s (AWatch k x fl cb)) as [_ [_ [A3 [A4 _]]]]. split; assumption.
   - apply cancel_now.
 Qed.
@@ -225,7 +226,7 @@ Lemma action_run_len : forall s a,
   (length (run_timers (do_action bug uenv s a)) <= length (run_timers s))%nat /\
   (length (run_laters (do_action bug uenv s a)) <= length (run_laters s))%nat.
 Proof.
-  intros s a. destruct a as [d fl cb|fl cb|k x fl cb|id|]; cbn [do_action]; try (split; cbn; lia).
+  intros s a. destruct a as [d fl cb|fl cb|k x fl cb|id| |]; cbn [do_action]; try (split; cbn; lia).
   - destruct (reg_fields s (AWatch k x fl cb)) as [A1 [A2 _]]. rewrite A1, A2. split; lia.
   - apply cancel_run_len.
 Qed.
@@ -484,7 +485,7 @@ Qed.
 
 Lemma ext_action : forall s a, ext nofire s (do_action bug uenv s a).
 Proof.
-  intros s a. destruct a as [d fl cb|fl cb|k x fl cb|id|]; cbn [do_action];
+  intros s a. destruct a as [d fl cb|fl cb|k x fl cb|id| |]; cbn [do_action];
     try (apply ext_same_log; reflexivity).
   - apply ext_same_log. destruct (reg_fields bug s (AWatch k x fl cb)) as [_ [_ [_ [_ L]]]]. exact L.
   - apply ext_cancel.
@@ -528,7 +529,7 @@ Lemma action_run_sub : forall (P : watch -> Prop) s a,
   Forall P (run_timers s) -> Forall P (run_laters s) ->
   Forall P (run_timers (do_action bug uenv s a)) /\ Forall P (run_laters (do_action bug uenv s a)).
 Proof.
-  intros P s a Ht Hl. destruct a as [d fl cb|fl cb|k x fl cb|id|]; cbn [do_action]; try (split; assumption).
+  intros P s a Ht Hl. destruct a as [d fl cb|fl cb|k x fl cb|id| |]; cbn [do_action]; try (split; assumption).
   - destruct (reg_fields bug s (AWatch k x fl cb)) as [A1 [A2 _]]. rewrite A1, A2. split; assumption.
   - apply cancel_run_sub; assumption.
 Qed.
@@ -588,7 +589,7 @@ Proof. intros n m l H HF. eapply Forall_impl; [|exact HF]. cbn. intros; lia. Qed
 
 Lemma Below_reg : forall s a, Below s -> Below (do_reg bug s a) /\ next_id s <= next_id (do_reg bug s a).
 Proof.
-  intros s a H. destruct a as [d fl cb|fl cb|k x fl cb|id|]; cbn [do_reg].
+  intros s a H. destruct a as [d fl cb|fl cb|k x fl cb|id| |]; cbn [do_reg].
   - unfold Below, all_lists in *. cbn [timers run_timers laters run_laters ios sigs procs next_id set_next set_timers].
     rewrite !Forall_app_iff in *. destruct H as [Ht [Hrt [Hl [Hrl [Hi [Hs Hp]]]]]].
     split; [|lia]. repeat split; try (eapply Below_weaken_list; [|eassumption]; lia).
@@ -605,6 +606,7 @@ Proof.
       (apply insert_watch_forall; [eapply Below_weaken_list; [|eassumption]; lia|cbn; lia]).
   - split; [exact H|lia].
   - split; [exact H|lia].
+  - split; [exact H|cbn; lia].
 Qed.
 
 Lemma Below_regs : forall l s, Below s -> Below (do_regs bug s l) /\ next_id s <= next_id (do_regs bug s l).
@@ -653,11 +655,12 @@ Qed.
 
 Lemma Below_action : forall s a, Below s -> Below (do_action bug uenv s a) /\ next_id s <= next_id (do_action bug uenv s a).
 Proof.
-  intros s a H. destruct a as [d fl cb|fl cb|k x fl cb|id|];
+  intros s a H. destruct a as [d fl cb|fl cb|k x fl cb|id| |];
     try (change (Below (do_reg bug s (ATimer d fl cb)) /\ next_id s <= next_id (do_reg bug s (ATimer d fl cb))) ||
          change (Below (do_reg bug s (ALater fl cb)) /\ next_id s <= next_id (do_reg bug s (ALater fl cb))) ||
          change (Below (do_reg bug s (AWatch k x fl cb)) /\ next_id s <= next_id (do_reg bug s (AWatch k x fl cb))) ||
-         change (Below (do_reg bug s ANop) /\ next_id s <= next_id (do_reg bug s ANop)); apply Below_reg; exact H).
+         change (Below (do_reg bug s ANop) /\ next_id s <= next_id (do_reg bug s ANop)) ||
+         change (Below (do_reg bug s ADrop) /\ next_id s <= next_id (do_reg bug s ADrop)); apply Below_reg; exact H).
   apply Below_cancel. exact H.
 Qed.
 
@@ -894,3 +897,78 @@ Lemma fixed_on_witnesses :
   run false w22c_env no_uenv w22b_ops = spec_run w22c_env no_uenv w22b_ops /\
   run false w22d_env no_uenv w22d_ops = spec_run w22d_env no_uenv w22d_ops.
 Proof. repeat split; vm_compute; reflexivity. Qed.
+
+(* ------------------------------------------------------------------ scripts in which nobody drops the instance *)
+
+Definition nodrop (a : action) : Prop := a <> ADrop.
+Definition op_nodrop (o : op) : Prop := match o with OAct a => nodrop a | _ => True end.
+
+Section NoDrop.
+Variable bug : bool.
+Variable env uenv : Z -> list action.
+Hypothesis env_nd : forall cb, Forall nodrop (env cb).
+Hypothesis uenv_nd : forall cb, Forall nodrop (uenv cb).
+
+Lemma dropped_reg : forall s a, nodrop a -> dropped (do_reg bug s a) = dropped s.
+Proof.
+  intros s a H. destruct a as [d fl cb|fl cb|k x fl cb|id| |]; try reflexivity; [destruct k; reflexivity|].
+  exfalso. apply H. reflexivity.
+Qed.
+Lemma dropped_regs : forall l s, Forall nodrop l -> dropped (do_regs bug s l) = dropped s.
+Proof.
+  induction l as [|a r IH]; intros s H; [reflexivity|]. inversion H; subst. unfold do_regs in *. cbn [fold_left].
+  rewrite IH by assumption. apply dropped_reg. assumption.
+Qed.
+Lemma dropped_notify : forall s w, dropped (notify_unbind bug uenv s w) = dropped s.
+Proof. intros s w. unfold notify_unbind. destruct (w_unbind w); [|reflexivity]. rewrite dropped_regs by apply uenv_nd. reflexivity. Qed.
+Lemma dropped_cancel : forall s id, dropped (watch_cancel bug uenv s id) = dropped s.
+Proof.
+  intros s id. unfold watch_cancel.
+  repeat match goal with
+  | |- context [find_remove id ?l] => destruct (find_remove id l) as [[? ?]|]; [rewrite dropped_notify; reflexivity|]
+  end. reflexivity.
+Qed.
+Lemma dropped_action : forall s a, nodrop a -> dropped (do_action bug uenv s a) = dropped s.
+Proof.
+  intros s a H. destruct a as [d fl cb|fl cb|k x fl cb|id| |]; try (apply (dropped_reg s _ H)).
+  apply dropped_cancel.
+Qed.
+Lemma dropped_actions : forall l s, Forall nodrop l -> dropped (do_actions bug uenv s l) = dropped s.
+Proof.
+  induction l as [|a r IH]; intros s H; [reflexivity|]. inversion H; subst. unfold do_actions in *. cbn [fold_left].
+  rewrite IH by assumption. apply dropped_action. assumption.
+Qed.
+Lemma dropped_rt_loop : forall n s, dropped (run_timers_loop bug env uenv n s) = dropped s.
+Proof.
+  induction n as [|n IH]; intros s; [reflexivity|]. cbn [run_timers_loop]. destruct (run_timers s); [reflexivity|].
+  rewrite IH, dropped_actions by apply env_nd. reflexivity.
+Qed.
+Lemma dropped_rl_loop : forall n s, dropped (run_laters_loop bug env uenv n s) = dropped s.
+Proof.
+  induction n as [|n IH]; intros s; [reflexivity|]. cbn [run_laters_loop]. destruct (run_laters s); [reflexivity|].
+  rewrite IH, dropped_actions by apply env_nd. reflexivity.
+Qed.
+Lemma dropped_tick : forall sleep dt s, dropped (tick bug env uenv sleep dt s) = dropped s.
+Proof.
+  intros sleep dt s. unfold tick, invoke_timers. rewrite dropped_rl_loop, dropped_rt_loop.
+  cbn [timers set_laters set_run_laters].
+  set (s3 := if sleep && _ then _ else _).
+  assert (E : dropped s3 = dropped s) by (unfold s3; destruct (sleep && _); reflexivity).
+  destruct (timers s3) as [|t0 tr]; [exact E|]. destruct (split_due (now (set_laters (set_run_laters s3 (run_laters s3 ++ laters s3)) [])) (t0 :: tr)). exact E.
+Qed.
+
+(* then the script runs to its end: runx is run *)
+Theorem runx_nodrop : forall ops, Forall op_nodrop ops -> runx bug env uenv ops = run bug env uenv ops.
+Proof.
+  intros ops Hops. unfold runx, run, run_ops.
+  assert (G : forall ops s, Forall op_nodrop ops -> dropped s = false ->
+              run_opsx bug env uenv ops s = (fold_left (do_op bug env uenv) ops s, false)).
+  { induction ops0 as [|o r IH]; intros s Ho Hd; [reflexivity|]. inversion Ho as [|? ? Ho1 Hor]; subst.
+    cbn [run_opsx fold_left].
+    assert (E : dropped (do_op bug env uenv s o) = false).
+    { destruct o as [a|dt|]; cbn [do_op]; [rewrite dropped_action by exact Ho1|rewrite dropped_tick|rewrite dropped_tick]; exact Hd. }
+    rewrite E. apply IH; assumption. }
+  rewrite (G ops st0 Hops eq_refl). reflexivity.
+Qed.
+
+End NoDrop.
